@@ -13,7 +13,6 @@ import (
 	"fmt"
 	"io"
 	"net"
-	"os"
 	"runtime"
 	"strings"
 	"sync"
@@ -24,6 +23,7 @@ import (
 	"github.com/arloliu/go-secs/v2/hsmsss"
 	"github.com/arloliu/go-secs/v2/logger"
 	"github.com/arloliu/go-secs/v2/secs1"
+	"github.com/arloliu/go-secs/v2/secs2"
 )
 
 // ---------------------------------------------------------------------------------------------
@@ -43,6 +43,8 @@ type Plan struct {
 	MuteLinktest bool // never answer Linktest.req
 	MuteData     bool // never answer data primaries
 	StopReading  bool // stop reading after the select exchange (the library's next write stalls)
+	StopReadingAfter int // >0: stop reading after this many complete frames have been read (the link stays open)
+	NoRead       bool // never read a single byte (the library's very first write stalls); the peer still writes
 	DropAfter    time.Duration // >0: close the peer end this long after the connection came up
 	StallIn      int           // go SILENT (socket stays open, keep reading) after WRITING this many bytes (-1: never)
 	ReplyBody    []byte        // body of the data replies the peer sends
@@ -668,6 +670,13 @@ func (p *Peer) run() {
 			}
 		}()
 	}
+	if p.plan.NoRead {
+		if !p.r.Active {
+			go func() { p.write(Enc(p.r.Sid, 0, 0, 0, 1, 0x70000001, nil)) }()
+		}
+		<-p.Done2()
+		return
+	}
 	if !p.r.Active && !p.plan.MuteSelect {
 		// passive library: the peer initiates Select
 		go func() {
@@ -693,7 +702,9 @@ func (p *Peer) run() {
 			Sys: binary.BigEndian.Uint32(rest[6:10]), BodyLen: ln - 10}
 		p.mu.Lock()
 		p.Frames = append(p.Frames, f)
+		nf := len(p.Frames)
 		p.mu.Unlock()
+		stopAfterThis := p.plan.StopReadingAfter > 0 && nf >= p.plan.StopReadingAfter
 		switch f.ST {
 		case 1: // Select.req from an active library
 			p.SelSeen.Add(1)
@@ -744,13 +755,17 @@ func (p *Peer) run() {
 			return
 		default:
 		}
+		if stopAfterThis { // this frame was answered; from now on the peer is deaf, the link stays open
+			p.r.add(Ev{K: "W", ID: int64(p.N), N: [4]int64{int64(nf)}})
+			<-p.Done2()
+			return
+		}
 	}
 }
 
 // Done2 is used by a peer that stops reading: it blocks until the rig is torn down, the peer is
-// closed, or the LIBRARY has closed its end (detected by a write of zero frames is impossible on a
-// pipe, so the peer probes with a deadline-bounded 0-progress write: net.Pipe reports a closed
-// remote end on Write even when nobody reads).
+// closed, or the LIBRARY has called Close() on its end (seen on the tracking wrapper). It must not
+// touch the pipe: a probing write would be read by the library and kill the link by itself.
 func (p *Peer) Done2() <-chan struct{} {
 	ch := make(chan struct{})
 	go func() {
@@ -759,17 +774,23 @@ func (p *Peer) Done2() <-chan struct{} {
 			p.mu.Lock()
 			c := p.closed
 			p.mu.Unlock()
-			if c {
+			if c || p.libClosed() {
 				return
 			}
-			_ = p.c.SetWriteDeadline(time.Now().Add(time.Millisecond))
-			if _, err := p.c.Write([]byte{0}); err != nil && !errors.Is(err, os.ErrDeadlineExceeded) {
-				return // remote end closed
-			}
-			time.Sleep(2 * time.Millisecond)
+			time.Sleep(time.Millisecond)
 		}
 	}()
 	return ch
+}
+
+// libClosed: the library has closed its end of this peer's pipe.
+func (p *Peer) libClosed() bool {
+	p.r.mu.Lock()
+	defer p.r.mu.Unlock()
+	if p.ConnID >= 0 && p.ConnID < len(p.r.conns) {
+		return p.r.conns[p.ConnID].closed.Load()
+	}
+	return false
 }
 
 // Selected reports whether the select exchange completed on this peer.
@@ -1176,6 +1197,34 @@ func (r *Rig) SendRoundTrip(timeout time.Duration) (ok bool, err error, panicked
 		return o.ok, o.err, o.pn
 	case <-time.After(timeout + SendWatchdog):
 		return false, ErrSendHung, nil // the call is abandoned (it may return when the connection is closed)
+	}
+}
+
+// SendRoundTripItem is SendRoundTrip with a body (an ASCII item of n characters).
+func (r *Rig) SendRoundTripItem(timeout time.Duration, n int) (ok bool, err error) {
+	type out struct {
+		ok  bool
+		err error
+	}
+	ch := make(chan out, 1)
+	go func() {
+		var o out
+		defer func() {
+			if p := recover(); p != nil {
+				r.Panics.Add(1)
+			}
+			ch <- o
+		}()
+		ctx, cancel := context.WithTimeout(context.Background(), timeout)
+		defer cancel()
+		rep, e := r.Conn.SendDataMessage(ctx, 1, 1, true, secs2.A(strings.Repeat("x", n)))
+		o.ok, o.err = e == nil && rep != nil, e
+	}()
+	select {
+	case o := <-ch:
+		return o.ok, o.err
+	case <-time.After(timeout + SendWatchdog):
+		return false, ErrSendHung
 	}
 }
 
